@@ -1684,7 +1684,10 @@ func (e *pfE2E) close() {
 func (e *pfE2E) call(args *pfJ) (op, obs string, tags []string) {
 	argsJSON := args.json()
 	params := json.RawMessage(`{"name":"tool","arguments":` + argsJSON + `}`)
-	op = "e2e " + pfPropsTok(e.schema) + " " + pfArgsTok(params)
+	// opaque: whether the SDK can decode these params at all (extractName unmarshals the whole params, so e.g. a
+	// number outside the float64 range anywhere in the arguments makes it fail on both sides)
+	_, nok := extractName("tools/call", params)
+	op = "e2e n" + pfB01(nok) + " " + pfPropsTok(e.schema) + " " + pfArgsTok(params)
 	e.mu.Lock()
 	e.seen = nil
 	e.mu.Unlock()
@@ -1830,6 +1833,9 @@ func TestVerifPreflight(t *testing.T) {
 	}
 	for _, kind := range pfKinds {
 		n := counts[kind]
+		if pfRace {
+			n /= 6
+		}
 		if kind == "http" {
 			// whole requests are independent: run them on a few workers, write in order
 			type rec struct{ op, obs string; tags []string }
